@@ -204,9 +204,9 @@ class C15(PropBase):
                 "format strings / serializer arms translate/c15_fmt.py reads off the source write; c15_proc_limits - limits sorted by name, a permutation of the table, numeric limits are JSON numbers for every u64; "
                 "c15_consistent / c15_offsets_checker - Gallina checkers of the self-consistency clauses on a JSON value alone (thread_count / frame_count / frame numbers / missing_symbols / the crashing_thread copy = "
                 "indexed thread + threads_index + registers in frame 0 only / num_records; module_offset = offset - base_addr of a module of that name, on the decoded numbers) hold of every well-formed state's report; "
-                "c15_basename (rfind + slice, separators read off utils.rs); c15_parse_ws_extends; "
+                "c15_keys_sorted (every object of the report strictly sorted by member name, as a BTreeMap writes it); c15_basename (rfind + slice, separators read off utils.rs); c15_parse_ws_extends; "
                 "c15_counts / c15_frame_numbers / c15_offsets / c15_modules_mirror / c15_crashing_thread_copy; finite checks over regenerated tables: c15_enumerations, c15_source_keys_documented. The Gallina "
-                "checkers [conforms DOC_SCHEMA], [widths], [consistent], [offsets_ok], [parse_ws] and the hypotheses [wf_state], [state_scalar], [regs_from_table], [frames_in_modules] are also evaluated on every real "
+                "checkers [conforms DOC_SCHEMA], [widths], [consistent], [offsets_ok], [keys_sorted], [parse_ws] and the hypotheses [wf_state], [state_scalar], [regs_from_table], [frames_in_modules], [keys_hyp] are also evaluated on every real "
                 "output / state of the run. Generated states cover "
                 "every optional member, malformed soft-errors streams and 32-bit platforms with addresses >= 2^32 (coverage counts in the evidence).",
         "note": "Trusted: Coq kernel + DecimalN; hand-written model (correspondence-checked byte for byte against print_json's compact and pretty output); serde_json writer assumed; schema translator + hand "
@@ -822,7 +822,7 @@ class C15(PropBase):
             for i, line, r in zip(idx, lines, res):
                 compared += 1
                 view = line.split("\t")[1]
-                mview, ok, mconf, wf, rconf, rwid, mpretty, pok, rcons, roff = ((r or "").split("\t") + [""] * 10)[:10]
+                mview, ok, mconf, wf, rconf, rwid, mpretty, pok, rcons, roff, rsort = ((r or "").split("\t") + [""] * 11)[:11]
                 spi = self.split(answers[i])
                 # the pretty bytes the model must reproduce: print_json(pretty = true)'s own bytes whenever the view is the whole
                 # document (nothing removed), else the harness's to_string_pretty of the view
@@ -852,6 +852,11 @@ class C15(PropBase):
                             "another value from it than from the compact output")
                 elif ok != "1":
                     what = "correspondence: the model's parser does not accept / reproduce the real view"
+                elif ok == "1" and rsort != "1":
+                    what = ("member order: the Gallina checker [keys_sorted] (theorem c15_keys_sorted) finds an object of the real print_json document whose member names "
+                            "are not in strictly increasing order (serde_json's Map is a BTreeMap)")
+                elif wf == "K":
+                    what = "hypothesis [keys_hyp] of theorem c15_keys_sorted does not hold on this real process state (register names / soft_errors objects not sorted)"
                 elif wf == "M":
                     what = ("a frame's module is not a member of the state's module list (same basename and base): hypothesis [frames_in_modules] of theorem "
                             "c15_offsets_checker does not hold on this real process state")
